@@ -30,7 +30,8 @@ pub trait RollingValidBinary<T: IsNone>: Vec1View<T> {
         T2::Inner: Number,
         f64: Cast<U>,
     {
-        let min_periods = min_periods.unwrap_or(window / 2).min(window);
+        // the sample covariance divides by `n - 1`: at least two observations are needed
+        let min_periods = min_periods.unwrap_or(window / 2).min(window).max(2);
         let mut sum_a = 0.;
         let mut sum_b = 0.;
         let mut sum_ab = 0.;
